@@ -88,8 +88,8 @@ class Bundle:
         me = self
 
         class SBudget(Budget):
-            def consume(s, cost=1):
-                r = super().consume(cost)
+            def consume(s, cost=1, *a, **kw):
+                r = super().consume(cost, *a, **kw)
                 me.log.append((who(), "consume", cost, r, world.t))
                 return r
 
